@@ -9,7 +9,7 @@ import ast
 import hashlib
 import os
 
-from .values import ModuleVal, Frame, FuncVal, Unsupported, PyExc, MISSING, ClassVal, LOADING, register_global, WRITTEN_GLOBALS, GLOBAL_OBJS
+from .values import ModuleVal, Frame, FuncVal, Unsupported, PyExc, MISSING, ClassVal, LOADING, register_global, WRITTEN_GLOBALS, GLOBAL_OBJS, DROPPED
 
 
 class Unknown:
@@ -116,6 +116,8 @@ class Repo:
             except (Unsupported, PyExc) as e:
                 names = _assigned_names(s)
                 self.dropped.append((m.name, getattr(s, 'lineno', 0), names, str(e)))
+                if m.name.startswith(self.pkg) and (m.name, getattr(s, 'lineno', 0)) not in [(x[0], x[1]) for x in DROPPED]:
+                    DROPPED.append((m.name, getattr(s, 'lineno', 0), names, str(e)))
                 tainted = self._mentions_host(s, m)
                 for n in names:
                     m.ns[n] = HostOpaque('%s.%s' % (m.name.split('.')[-1], n)) if tainted else Unknown(str(e))
